@@ -150,6 +150,11 @@ def reference_variants(rnd, b):
             for i in range(0, len(m2.funcs), 2):
                 m2.funcs[i].body = m2.funcs[i].body + [('nop',)]
             out.append(('changed', m2.encode()))
+            # identical code, different local declarations: the bodies are NOT byte-identical, so nothing may be static
+            m5 = wasm.decode(b)
+            for f in m5.funcs:
+                f.locals = list(f.locals) + [(1, I64)]
+            out.append(('localschanged', m5.encode()))
             m3 = wasm.decode(b, keep_raw=True)
             # same bodies in a different order, with one duplicated: build a fresh module of raw bodies
             m4 = Module()
